@@ -1,8 +1,8 @@
 HOOKS = dict(
     guard="verif-trace",
-    enable="cargo feature `verif-trace` of cedar-policy-core (forwarded by cedar-policy); the harness enables it in harness/conform/Cargo.toml once the hook commits exist",
+    enable="cargo test -p cedar-policy-core -p cedar-policy --lib --features verif-trace with CEDAR_VERIF_TRACE=<prefix> (done by the thorough tier of C01 and C04, which validate the recorded store and authorizer events with Trace_StoreHook.tla / Trace_AuthzHook.tla)",
     baseline_off_cmd="cd /repo && cargo nextest run --workspace --no-fail-fast --test-threads 8 --offline || cargo test --workspace --no-fail-fast --offline",
-    source_commits=[],
+    source_commits=["c7e2586"],
     add_only=True,
 )
 ENGINES = [
@@ -126,3 +126,17 @@ CLAIMED["C20"] = dict(category="exploration",
          "through print / to_json / PST / protobuf / validate / authorize / partial / link / TPE / format; every error is rendered (Display and miette report).",
     note="exploration, not exhaustiveness: byte strings outside these generators are not covered; all other families (C01-C19) also count a caught panic as unexplained.",
     technique="TLA+ outcome alphabet + TLC-enumerated token sequences and nesting towers, seeded mutants, replayed into the implementation under catch_unwind; trace validation rejects any panic")
+ENGINES[0]["serves_properties"] += ["C05", "C12"]
+CLAIMED["C05"] = dict(category=_MC,
+    text="Syntax.tla defines the surface abstract syntax, Core (the parser's documented desugarings) and Render: a token sequence derived from the grammar's precedence table in four "
+         "styles (minimal, full, redundant parentheses, redundant + trailing commas). TLC enumerates operators in every operand position of every other operator, depth-3 nests, unary "
+         "chains, i64 boundary literals, escape-heavy strings/ids/patterns, reserved attribute names, all scope forms, annotations, clause lists and policy sets, plus texts the grammar "
+         "must reject; each case is spelled with seeded whitespace/comments/escapes, parsed by the real parser through 12 parse/print/re-parse paths and projected; TLC requires every "
+         "projection to equal Core(ast). The tree's own policy files and embedded policies are round-tripped and re-rendered as well.",
+    note="bounded by nesting depth and the pools of MC_Syntax.tla; evaluation agreement is delegated to C02; PolicySet Display omitting templates is modelled as documented behaviour.")
+CLAIMED["C12"] = dict(category=_MC,
+    text="Comments.tla models a policy text as tokens plus comment / blank lines at every token boundary. TLC chooses small and line-breaking policy sets, comment placements (none, each "
+         "single boundary, pairs, all, special comment texts, EOF) and a (line width, indent) grid; the real formatter is run, its output re-parsed and re-formatted, and comments extracted "
+         "by an independent scanner; Trace_Format.tla requires formatting to succeed, Parse(out) = Parse(in) (ids, annotations, order), the same comment sequence, the same again after "
+         "re-formatting, and idempotence for comment-free text. The formatter fixtures and every policy file in the tree run at the whole grid.",
+    note="layout quality is out of scope. A genuine defect found by this check (comments next to a trailing comma were dropped) was repaired in /repo commit fde431f.")
